@@ -87,6 +87,8 @@ class World:
         self.centres = [[0.25 * j + 0.5 * D.unit('cfg', ('c', j, i)) for i in range(self.n)]
                         for j in range(self.m)]
         self.thr = [(0.7, 0.5, 0.9)[D.dec('cfg', ('thr', k), 3)] for k in range(self.ncons)]
+        # what the user's objective returns: a list of Python floats, or a numpy array (vectorised FEM post-processing)
+        self.ret_numpy = D.weighted('cfg', 'retnumpy', (4, 1)) == 1
         self.calls = []
         self.attempts = {}
         self.ncalls_ok = 0
@@ -196,6 +198,9 @@ def _make_problem(world):
             r = w.f(individual.vector)
             w.ncalls_ok += 1
             sim.yield_point('obj_out', 0.0)
+            if w.ret_numpy:
+                import numpy as np
+                return np.array(r)
             return r
 
         def evaluate_inequality_constraints(self, x):
